@@ -18,9 +18,9 @@ def run_mutant(pid, mut, tier='quick'):
         shutil.copytree('/repo/src', os.path.join(td, 'src'), ignore=shutil.ignore_patterns('__pycache__', '*.check'))
         p = os.path.join(td, 'src', 'PseudoNetCDF', mut['file'])
         s = open(p).read()
-        if s.count(mut['old']) != 1:
+        if s.count(mut['old']) != 1 and not (mut.get('first') and s.count(mut['old']) > 1):
             return dict(id=mut['id'], result='patch-does-not-apply (%d matches)' % s.count(mut['old']))
-        open(p, 'w').write(s.replace(mut['old'], mut['new']))
+        open(p, 'w').write(s.replace(mut['old'], mut['new'], 1))
         env = dict(os.environ, VERIF_REPO=td, VERIF_EVIDENCE_DIR=os.path.join(td, 'evidence'), VERIF_REPLAY_DIR=os.path.join(td, 'replays'))
         r = subprocess.run([os.path.join(V, 'check'), pid, '--tier', tier], capture_output=True, text=True, env=env, cwd=V)
         viol = [l for l in r.stdout.splitlines() if l.startswith('VIOLATION')]
